@@ -98,6 +98,13 @@ class MemBackend(TrialBackend):
     def _pause_trial(self, trial_id, result):
         self.marker[trial_id] = "pause"
         self._kill(trial_id)
+        # The job resumes from the level it was paused at (as the blackbox simulator models it), not from a
+        # checkpoint it wrote while the pause decision was under way: a script that skips a rung level on
+        # resume is outside every property's quantifier.
+        from dst.workers import RESOURCE_ATTR
+
+        if result is not None and RESOURCE_ATTR in result and trial_id in self.ckpt:
+            self.ckpt[trial_id] = min(self.ckpt[trial_id], int(result[RESOURCE_ATTR]))
 
     def _resume_trial(self, trial_id):
         if self.marker.get(trial_id) == "pause":
